@@ -1,6 +1,7 @@
 import Drpc.Lemmas.ManagerSysSched
 import Drpc.Lemmas.ManagerSysTok
 import Drpc.Lemmas.ManagerSysClose
+import Drpc.Lemmas.ManagerSysCtx
 import Drpc.Props.Manager
 /-
   Properties of the atomic-step model of drpcmanager.Manager (`Drpc/Manager/Sys.lean`, the code after fix
@@ -479,6 +480,104 @@ theorem close_hangs_concurrent_servers :
         rw [e] at h'
         simpa using h'
       rcases this with rfl | rfl <;> decide
+
+/-! ## Part 4 — cancellation and termination seen from the callers (C04 / C05 at the manager level) -/
+
+/-- a cancelled context always lets the call go on (and fail) at every wait of acquireSemaphore,
+    waitForPreviousStream and NewServerStream's packet loop — in EVERY state, reachable or not -/
+theorem ctx_cancel_unblocks_caller {s : St} {t : Tid} (hctx : s.sh.ctx t = true)
+    (hp : (∃ c, s.pc t = .aStart c) ∨ (∃ c, s.pc t = .aSel c) ∨ (∃ c p, s.pc t = .aPrevSel c p) ∨ s.pc t = .sSel) :
+    Enabled s t :=
+  enabled_of_ctx hctx hp
+
+/-- the complete list of the other positions at which a caller thread can be blocked (`BlockedAt`, which is
+    exact: `blocked_of_not_enabled` / `not_enabled_of_blocked`): none of them looks at the caller's context -/
+theorem positions_not_cancellable_by_ctx {s : St} {t : Tid} {p : PC} (ctx' : Tid → Bool)
+    (hp : (∃ c sid, p = .nOffer c sid) ∨ (∃ c sid, p = .nOffered c sid) ∨ (∃ q, p = .sGot q) ∨ p = .aFailRel ∨
+      p = .sFailRel ∨ p = .cWaitStream ∨ p = .cWaitRead ∨ p = .cWaitTport ∨ p = .idle ∨ ∃ b, p = .done b) :
+    BlockedAt { s with sh := { s.sh with ctx := ctx' } } t p ↔ BlockedAt s t p :=
+  blocked_ctx_independent ctx' hp
+
+/-- … but four of them never block at all: the acknowledgement `m.pdone.Send()`, the two semaphore
+    releases, and the offer step of newStream -/
+theorem uncancellable_positions_never_block {soft : Bool} {s : St} (h : ReachF soft s) {t : Tid}
+    (hp : (∃ q, s.pc t = .sGot q) ∨ s.pc t = .aFailRel ∨ s.pc t = .sFailRel ∨ ∃ c sid, s.pc t = .nOffer c sid) :
+    Enabled s t := by
+  have hs := safe_reachF h
+  apply Classical.byContradiction
+  intro hne
+  have hb := blocked_of_not_enabled hne
+  rcases hp with ⟨q, hp⟩ | hp | hp | ⟨c, sid, hp⟩
+  · rw [hp] at hb
+    have := (hs.pk.got t (by rw [hp]; rfl)).1
+    rw [show s.sh.pdone = true from hb] at this; cases this
+  · rw [hp] at hb
+    have := hs.sem.held t (by rw [hp]; rfl)
+    rw [show s.sh.sem = false from hb] at this; cases this
+  · rw [hp] at hb
+    have := hs.sem.held t (by rw [hp]; rfl)
+    rw [show s.sh.sem = false from hb] at this; cases this
+  · exact hne ((handoff_ok hs (lx_reachF h) (norf_reach h.reach) (t := t)).2.2 c sid hp)
+
+/-- the hand-over of a new stream (newStream's select has no ctx branch) never waits for another stream:
+    while a caller offers its stream, manageStreams is at its select — and takes it — or the manager is
+    terminated — and the caller retracts.  (So the only waits a context cannot end are this one, which ends
+    at once, and Close waiting for the goroutines, `close_completes*`.) -/
+theorem handoff_never_waits_long {soft : Bool} {s : St} (h : ReachF soft s) {t : Tid} {c : Call} {sid : Sid}
+    (hp : s.pc t = .nOffered c sid) :
+    (s.sh.streamsCh = some sid → s.pc mgrTid = .mTop ∨ s.sh.term = true) ∧ (Enabled s mgrTid ∨ Enabled s t) := by
+  have hk := handoff_ok (safe_reachF h) (lx_reachF h) (norf_reach h.reach) (t := t)
+  exact ⟨hk.1 c sid hp, hk.2.1 c sid hp⟩
+
+/-- termination leaves nothing blocked (client connection): in a quiescent state of a terminated manager
+    no NewClientStream call is left inside the manager, the reader and manageStreams are gone, the transport
+    was closed exactly once -/
+theorem termination_unblocks_everything_client {soft : Bool} {s : St} (h : ReachFE EnvNoServer soft s)
+    (hst : Stuck s) (hq : EnvQuiet s) (hterm : s.sh.term = true) :
+    (∀ t, 2 ≤ t → s.pc t = .idle ∨ ∃ b, s.pc t = .done b) ∧ (∃ b, s.pc readerTid = .done b) ∧
+    (∃ b, s.pc mgrTid = .done b) ∧ s.sh.closes = 1 ∧ s.sh.readDone = true ∧ s.sh.streamDone = true ∧
+    s.sh.tportSet = true :=
+  unblocked_client h hst hq hterm
+
+/-- the same for the executions of `ReachP soft .client` (drpcconn, late acquisition on a stale pointer excluded) -/
+theorem termination_unblocks_everything_clientP {soft : Bool} {s : St} (h : ReachP soft .client s)
+    (hst : Stuck s) (hq : EnvQuiet s) (hterm : s.sh.term = true) :
+    (∀ t, 2 ≤ t → s.pc t = .idle ∨ ∃ b, s.pc t = .done b) ∧ (∃ b, s.pc readerTid = .done b) ∧
+    (∃ b, s.pc mgrTid = .done b) ∧ s.sh.closes = 1 ∧ s.sh.readDone = true ∧ s.sh.streamDone = true ∧
+    s.sh.tportSet = true :=
+  unblocked_client (reachFE_of_reachP_client h) hst hq hterm
+
+/-- … and for drpcserver.ServeOne -/
+theorem termination_unblocks_everything_serve {soft : Bool} {s : St} (h : ReachServe soft s)
+    (hst : Stuck s) (hq : EnvQuiet s) (hterm : s.sh.term = true) :
+    (∀ t, 2 ≤ t → s.pc t = .idle ∨ ∃ b, s.pc t = .done b) ∧ (∃ b, s.pc readerTid = .done b) ∧
+    (∃ b, s.pc mgrTid = .done b) ∧ s.sh.closes = 1 ∧ s.sh.readDone = true ∧ s.sh.streamDone = true ∧
+    s.sh.tportSet = true :=
+  unblocked_serve h hst hq hterm
+
+/-- a transport read error (no Close call needed): from `Env.readErr` on the reader is at `errPc` — in
+    `terminate`, at its deferred exit, or gone — for ever (`errPc_step`, `errPc_env`); at `.tSet .reader` it can
+    always step, and that step leaves the term signal set; past it the manager is terminated -/
+theorem read_error_sets_term {soft : Bool} {s : St} (h : ReachF soft s) (he : errPc (s.pc readerTid) = true) :
+    (∀ t ch s', step s t ch = some s' → errPc (s'.pc readerTid) = true) ∧
+    (∀ e s', envStep s e = some s' → errPc (s'.pc readerTid) = true) ∧
+    (s.pc readerTid = .tSet .reader → Enabled s readerTid ∧
+      ∀ ch s', step s readerTid ch = some s' → s'.sh.term = true) ∧
+    (s.pc readerTid ≠ .tSet .reader → s.sh.term = true) :=
+  ⟨fun _ _ _ hs => errPc_step hs he, fun _ _ hs => errPc_env hs he,
+   fun hp => ⟨(tSet_reader_step (s' := s) (ch := 0) hp).1, fun ch s' hs => (tSet_reader_step hp).2 hs⟩,
+   fun hn => term_of_errPc (safe_reachF h) (lx_reachF h) he hn⟩
+
+/-- the form to quote: in a quiescent state after a read error the manager is terminated (so the three
+    theorems above apply) -/
+theorem read_error_terminates {soft : Bool} {s : St} (h : ReachF soft s) (hst : Stuck s) (hq : EnvQuiet s)
+    (he : errPc (s.pc readerTid) = true) : s.sh.term = true := by
+  cases hterm : s.sh.term with
+  | true => rfl
+  | false =>
+    exfalso
+    obtain ⟨-, -, -, hrd, -⟩ := ready_when_quiet h hst hq hterm
+    rcases hrd with hp | ⟨p, hp⟩ | ⟨p, c, hp⟩ <;> rw [hp] at he <;> cases he
 
 /-- the leak mentioned in (b): NewClientStream whose offer is retracted returns without releasing the
     semaphore (`return m.newStream(...)` after a successful acquireSemaphore) — harmless, the manager is
